@@ -968,6 +968,8 @@ ares_status_t ares_requeue_query(ares_query_t *query, const ares_timeval_t *now,
 {
   ares_channel_t *channel   = query->channel;
   size_t          max_tries = ares_slist_len(channel->servers) * channel->tries;
+  /* Server of the attempt that just failed, if it was on a connection */
+  ares_server_t  *server    = (query->conn != NULL) ? query->conn->server : NULL;
 
   ares_query_remove_from_conn(query);
 
@@ -991,7 +993,10 @@ ares_status_t ares_requeue_query(ares_query_t *query, const ares_timeval_t *now,
     query->error_status = ARES_ETIMEOUT;
   }
 
-  end_query(channel, NULL, query, query->error_status, dnsrec);
+  /* Pass the server along: a probe of a failed server (which is never
+   * retried) ends here when it fails, and the server must stop counting as
+   * "being probed" or it is never probed again. */
+  end_query(channel, server, query, query->error_status, dnsrec);
   return ARES_ETIMEOUT;
 }
 
